@@ -2,10 +2,14 @@
 from __future__ import annotations
 
 from collections.abc import Sequence
+from typing import Iterable
 from typing import TYPE_CHECKING
 
 from bqskit.compiler.gateset import GateSet
 from bqskit.compiler.gateset import GateSetLike
+from bqskit.ir.gates.barrier import BarrierPlaceholder
+from bqskit.ir.gates.measure import MeasurementPlaceholder
+from bqskit.ir.gates.reset import Reset
 from bqskit.ir.location import CircuitLocation
 from bqskit.qis.graph import CouplingGraph
 from bqskit.qis.graph import CouplingGraphLike
@@ -108,16 +112,32 @@ class MachineModel:
         if circuit.num_qudits > self.num_qudits:
             return False
 
-        if any(g not in self.gate_set for g in circuit.gate_set):
-            return False
+        # Barriers, measurements and resets are not gates: they neither
+        # need to be native nor to act on coupled qudits.
+        placeholders = (BarrierPlaceholder, MeasurementPlaceholder, Reset)
+        has_placeholder = False
+        for g in circuit.gate_set:
+            if isinstance(g, placeholders):
+                has_placeholder = True
+            elif g not in self.gate_set:
+                return False
 
         if placement is None:
             placement = list(range(circuit.num_qudits))
 
+        edges: Iterable[tuple[int, int]] = circuit.coupling_graph
+        if has_placeholder:
+            edges = {
+                pair
+                for op in circuit
+                if not isinstance(op.gate, placeholders)
+                for pair in op.location.pairs
+            }
+
         if any(
             (placement[e[0]], placement[e[1]]) not in self.coupling_graph
             and (placement[e[1]], placement[e[0]]) not in self.coupling_graph
-            for e in circuit.coupling_graph
+            for e in edges
         ):
             return False
 
